@@ -245,6 +245,20 @@ theorem coerce_leaves (fmt : Bool) (t : Target) (n r : Node) (h : coerce fmt t n
             · simp at h; subst h; simpa [Node.leaves, SeqKind.wrap, Expr.leaves] using this
             · simp at h
 
+/-! ### `arguments` operands of the special containers (`Pfst/CoerceArgs.lean`) -/
+
+/-- **`arguments` -> `_type_params` keeps names and annotations in source order**: plain parameters, `*vararg`,
+keyword-only parameters, `**kwarg` - in that order, whatever the lengths. -/
+theorem args_type_params_leaves (a : Arguments) (ts : List TParam) (h : argsToTypeParams a = some ts) :
+    leavesTs ts = a.leaves := argsToTypeParams_leaves' a ts h
+
+/-- **`arguments` -> `_pattern_attrlikes` keeps the content**: positional patterns then keyword patterns have exactly the
+parameter names (`_` = wildcard) and the leaves of the defaults, in source order (defaults come last in valid
+`arguments`). -/
+theorem args_attrlikes_leaves (fmt : Bool) (a : Arguments) (ps ks : List Pattern)
+    (hs : defaultsSuffix a.args = true) (h : argsToAttrlikes fmt a = some (ps, ks)) :
+    leavesP ps ++ leavesP ks = a.leaves := argsToAttrlikes_leaves' fmt a ps ks hs h
+
 /-! ### formatted route vs pure-AST route
 
 Full statement (property text: "coercing a formatted node and coercing its pure AST give structurally equal results"):
@@ -340,5 +354,17 @@ example : coerce false (.seq .list) (.p (.seq .other [.capture (some "a"), .capt
 example : (coerce true (.seq .list) (.e (.tuple [.other "Slice" [], .name "b"]))).isNone = true := by decide
 example : kindOK (.e (.list [])) (.seq .list) = true := by decide
 example : (.binop (.name "a") .bitor (.name "b") false : Expr).plain = true := by decide
+-- `x, *rest, key, **kw` as type parameters: `x, *rest, key, **kw`; `a, _, k=1` as class-pattern attributes: `a, _, k=1`
+private def exArgs : Arguments :=
+  { posonly := [], args := [⟨"x", none, none⟩], vararg := some ⟨"rest", none, none⟩, kwonly := [⟨"key", none, none⟩],
+    kwarg := some ⟨"kw", none, none⟩ }
+example : (argsToTypeParams exArgs).map leavesTs = some [.name "x", .name "rest", .name "key", .name "kw"] := by decide
+private def exArgs2 : Arguments :=
+  { posonly := [], args := [⟨"a", none, none⟩, ⟨"_", none, none⟩, ⟨"k", none, some (.const (.int false "1"))⟩],
+    vararg := none, kwonly := [], kwarg := none }
+example : (argsToAttrlikes true exArgs2).map (fun r => leavesP r.1 ++ leavesP r.2) = some exArgs2.leaves := by decide
+example : defaultsSuffix exArgs2.args = true := by decide
+example : (argsToAttrlikes true exArgs2).map (fun r => r.1.length) = some 2 := by decide
+example : (argsToTypeParams { exArgs with vararg := none }).isNone = true := by decide
 
 end Pfst.C19
